@@ -1801,7 +1801,12 @@ fn gen_v(r: &mut Rng, depth: usize, anc: &mut Vec<&'static str>) -> V {
             if RAW_TEXT_CASES && r.chance(1, 40) {
                 // an element that does not escape its children (class raw-text-child, F-C05-2)
                 let tag = *r.pick(&["textarea", "style"]);
-                let body = r.pick(&["a", "b", "p{}", "x y", "a & b", "1 < 2"]).to_string();
+                // a <textarea> escapes its text and doubles a leading line feed (repairs 7006223, 01b809d)
+                let body = if tag == "textarea" {
+                    r.pick(&["a", "b", "x y", "a & b", "1 < 2", "&lt;b&gt;", "</textarea><img>", "\nfoo", "\n", "\n\nx", "<!>"]).to_string()
+                } else {
+                    r.pick(&["a", "b", "p{}", "x y", "a & b", "1 < 2"]).to_string()
+                };
                 return V::Elem { tag: tag.into(), attrs: vec![], kids: vec![V::Text(body)] };
             }
             let ok: Vec<&'static str> = CONTAINERS.iter().copied().filter(|t| html::nest_ok(t, anc)).collect();
@@ -1853,7 +1858,11 @@ fn mutate(r: &mut Rng, v: &V, depth: usize, anc: &mut Vec<&'static str>) -> V {
         V::Elem { tag, attrs: _, kids } => {
             if tag == "textarea" || tag == "style" {
                 // an element that does not escape its children: only its string changes
-                let body = if r.chance(1, 2) { kids.clone() } else { vec![V::Text(r.pick(&["a", "b", "p{}", "x y"]).to_string())] };
+                let body = if r.chance(1, 2) {
+                    kids.clone()
+                } else {
+                    vec![V::Text(r.pick(&["a", "b", "p{}", "x y", "a & b", "\nz"]).to_string())]
+                };
                 return V::Elem { tag: tag.clone(), attrs: vec![], kids: body };
             }
             let tag_s: &'static str = CONTAINERS.iter().chain(VOIDS).copied().find(|t| t == tag).unwrap_or("div");
@@ -2104,6 +2113,10 @@ fn small_scope() -> Vec<(String, Vec<V>, Vec<V>)> {
         add("raw-textarea", vec![e("textarea", vec![t("a")])], vec![e("textarea", vec![t("b")])]);
     }
     add("raw-style-same", vec![e("style", vec![t("p{}")])], vec![e("style", vec![t("p{}")])]);
+    // a <textarea> is server-rendered with its text escaped and a leading line feed doubled; unchanged on rebuild
+    add("textarea-escaped-same", vec![e("textarea", vec![t("</textarea><b>&amp;")])], vec![e("textarea", vec![t("</textarea><b>&amp;")])]);
+    add("textarea-leading-lf-same", vec![e("textarea", vec![t("\nfoo")])], vec![e("textarea", vec![t("\nfoo")])]);
+    add("textarea-empty-same", vec![e("textarea", vec![t("")]), t("x")], vec![e("textarea", vec![t("")]), t("y")]);
     // the other RenderHtml implementors, in every position
     let st = || V::Inert(Box::new(e("p", vec![t("static")])));
     add("inert-first", vec![e("div", vec![st(), t("dyn")])], vec![e("div", vec![st(), t("DYN")])]);
